@@ -294,3 +294,19 @@ def anchor_probe_dfa(rng):
         delta.append(['sink', x, 'sink'])
     Q = probes + anchors + routers + ['sink']
     return {'kind': 'dfa', 'Q': Q, 'Sigma': Sigma, 'delta': delta, 'q0': level[0], 'F': [anchors[-1]]}
+
+
+def long_epsilon_chain_nfa(rng):
+    """Boundary size: one epsilon segment of more than a thousand moves before or after the only input symbol."""
+    K = rng.choice([1010, 1200, 1500])
+    Q = ['c%d' % i for i in range(K)] + ['f']
+    before = rng.random() < 0.5
+    delta = [[Q[i], 'ε', [Q[i + 1]]] for i in range(K - 1)]
+    if before:
+        delta.append([Q[K - 1], 'a', ['f']])
+        q0 = Q[0]
+    else:
+        delta.append(['f', 'a', [Q[0]]])
+        q0 = 'f'
+    F = ['f'] if before else [Q[K - 1]]
+    return {'kind': 'nfa', 'Q': Q, 'Sigma': ['a'], 'delta': delta, 'q0': q0, 'F': F, 'eps': 'ε', 'dd': True}
